@@ -10,7 +10,10 @@
      C <n> <lhs> <rhs> | (same output)
 
    No oracle: the model of slice.EditScript (Slice/EditModel.v, property C11) computes the script,
-   i.e. the composed model mdiff_new of Mdiff/MdiffCompose.v predicts everything from the inputs. *)
+   i.e. the composed model mdiff_new of Mdiff/MdiffCompose.v predicts everything from the inputs.
+
+   H / HC: histories; U: UnifyChunks on arbitrary chunk lists; S / SC: texts by recipe, digested
+   outputs; PD / PU (round 4): the case of an H line after an earlier call in the same process. *)
 
 let leq (a : M.n list) (b : M.n list) = (a = b)
 
@@ -58,6 +61,19 @@ let parse_hist inp =
   match words inp with
   | ["H"; ops; script; lhs; rhs] -> Some (parse_ops ops, script, unhexs lhs, unhexs rhs)
   | ["HC"; ops; lhs; rhs] -> Some (parse_ops ops, "", unhexs lhs, unhexs rhs)
+  | _ -> None
+
+(* PD / PU lines (harness/cmd/mdifftrace/round4.go): the history case of an H line run after an
+   earlier call in the same process (another diff, or UnifyChunks on an arbitrary chunk list).
+   New / AddContext / Unify keep nothing between calls: the model predicts the case from its own
+   inputs; Q=1 says the earlier call's result still spells as it did before the case ran. *)
+let parse_prelude inp =
+  match words inp with
+  | ["PD"; pops; plhs; prhs; ops; script; lhs; rhs] ->
+    (try ignore (parse_ops pops); ignore (unhexs plhs); ignore (unhexs prhs);
+         Some (parse_ops ops, script, unhexs lhs, unhexs rhs) with _ -> None)
+  | ["PU"; cs; ops; script; lhs; rhs] ->
+    (try ignore (parse_chunks cs); Some (parse_ops ops, script, unhexs lhs, unhexs rhs) with _ -> None)
   | _ -> None
 
 let parse_input inp =
@@ -224,6 +240,9 @@ let eval inp =
   match parse_scale inp with
   | Some sc -> eval_scale inp sc
   | None ->
+  match parse_prelude inp with
+  | Some h -> eval_hist h ^ " Q=1"
+  | None ->
   match parse_hist inp with
   | Some h -> eval_hist h
   | None ->
@@ -372,6 +391,14 @@ let spec prop inp out =
   match words inp with
   | ["U"; s] when prop = "C13" -> spec_unify s out
   | ("S" | "SC") :: _ when prop = "C13" -> spec_scale inp out
+  | _ ->
+  match parse_prelude inp with
+  | Some h when prop = "C13" ->
+    spec_hist h out
+    >>= fun () -> (match field out "Q" with
+                   | Some "1" -> None
+                   | Some _ -> Some "the Diff (or chunk list) an earlier call returned reads differently after this case ran: results of separate calls share storage"
+                   | None -> Some "bad output syntax")
   | _ ->
   match parse_hist inp with
   | Some h when prop = "C13" -> spec_hist h out
